@@ -45,6 +45,10 @@ CHECKS["C09"] = dict(level="other", design="3/C09", technique="IR equivalence of
     text="scaled->coarser scaled and scaled->integer conversions under each rounding tag equal x>>k, (x+2^(k-1))>>k, (x +/- 2^(k-1))/2^k for all source values; digit-preserving conversions equal the plain conversion; the bias arithmetic is searched for undefined operations over the whole source range; in floating->integer conversions the instruction adding +/-0.5 must work in a strictly wider floating type than the source; constructors of scaled_integer<rounding_integer<>> round by the destination's mode.",
     note="Floating-point value semantics beyond the precision rule, and radix != 2, are not decided.")
 
+CHECKS["C10"] = dict(level="other", design="3/C10", technique="type facts (clang constant values cross-checked by g++ static_assert) on the storage, numeric_limits and operator result types of multi-limb wide_integer instantiations",
+    text="Only the type-level clauses: beyond the widest built-in the rep is a multi-limb uintwide_t whose limb is the unsigned narrowest type, whose signedness is the narrowest type's and whose width is the smallest multiple of the limb width holding the digits plus the sign bit; numeric_limits digits / is_signed / digits_v / signedness_v; binary operator results have max(A, B) digits and are signed when either operand is; shifts and unary operators keep the operand's digits and signedness; comparisons return bool (12 digit counts x 6 narrowest types on the quick tier).",
+    note="The limb arithmetic itself (carry propagation, Knuth division, shifts across limbs, sign handling of / and %, conversions, text output) runs in data-dependent loops and is NOT decided: no static abstraction in reach relates it to arithmetic mod 2^N. A value-level slip inside uintwide_t (seeded change M-C02-3) is invisible to this check.")
+
 CHECKS["C11"] = dict(level="other", design="3/C11", technique="type facts on the composite types vs the interval oracle; must-pass-through of the overflow/elastic/rounding/wide layers on the -O0 call graph; IR equivalence of expression chains; line engine on narrowing assignments",
     text="static_integer/static_number are the documented compositions and every operator result keeps both tags with oracle-sufficient digits; from each public operator the call graph reaches a custom_operator of the overflow tag, from it one of elastic_tag, (for /) the rounding tag's divide, then wide_tag; three-operation chains equal plain arithmetic; narrowing assignments return the (mode-)rounded value inside the declared range and the bound / the right signal outside, for every source value.",
     note="Multi-limb value-level behaviour (C10), rounding direction of / for two free operands (C08) and chains longer than three operations are not decided; neg_inf narrowing lines are undecided (periodic conditions).")
@@ -68,7 +72,6 @@ CHECKS["C19"] = dict(level="other", design="3/C19", technique="type facts and co
     note="That the returned root is floor(sqrt(x)) — the digit-by-digit algorithm over run-time values, including root + bit at the top of the range — is NOT decided.")
 
 NOT_APPLICABLE = {
-    "C10": "limb-array loops of the vendored uintwide_t have data-dependent control; no static abstraction in reach relates them to arithmetic mod 2^N (DESIGN 3/C10)",
     "C17": "termination/accuracy of the floating-point driven Stern-Brocot loop is a numerical statement with no structural clause (DESIGN 3/C17)",
     "C20": "one-ulp accuracy of a minimax polynomial and of series constants is a statement about values; nothing of it is visible in types or code shape (DESIGN 3/C20)",
 }
